@@ -176,6 +176,9 @@ pub fn corpus() -> Vec<(String, String)> {
         "all_forms".into(),
         "data List[A] { Nil, Cons(x: A, xs: List[A]) }\ncodata Fun[A, B] { ap(x: A): B }\ndef g(k :cns i64, v: i64): i64 { goto k (v) }\ndef main(n: i64): i64 { let l: List[i64] = Cons(n, Nil); let f: Fun[i64, i64] = new { ap(q) => q + 1 }; println_i64(label a { if n == 0 { g(a, 1) } else { l.case[i64] { Nil => exit 3, Cons(h, t) => f.ap[i64, i64](h) * (2 - n) } } }); 0 }\n".into(),
     ));
+    for (n, src) in unusual_programs() {
+        v.push((n.to_string(), src.to_string()));
+    }
     // two pairs of declared types of the same shape, all instantiated at the same type arguments
     // (identifier swaps then produce xtors of the wrong type whose instance exists)
     v.push((
@@ -183,6 +186,69 @@ pub fn corpus() -> Vec<(String, String)> {
         "data List[A] { Nil, Cons(x: A, xs: List[A]) }\ndata Opt[A] { None, Some(x: A) }\ncodata Fun[A, B] { ap(x: A): B }\ncodata Lazy[A, B] { force(x: A): B }\ndef len(l: List[i64]): i64 { l.case[i64] { Nil => 0, Cons(x, xs) => 1 + len(xs) } }\ndef get(o: Opt[i64]): i64 { o.case[i64] { None => 0, Some(x) => x } }\ndef run(f: Fun[i64, i64], g: Lazy[i64, i64]): i64 { f.ap[i64, i64](g.force[i64, i64](1)) }\ndef main(n: i64): i64 { println_i64(get(Some(len(Cons(n, Nil))))); println_i64(get(None)); run(new { ap(x) => x + n }, new { force(x) => x * 2 }) }\n".into(),
     ));
     v
+}
+
+/// Legal but unusual programs (accepted by the unchanged checker).
+pub fn unusual_programs() -> Vec<(&'static str, &'static str)> {
+    vec![
+        ("nonregular_type", "data Box[A] { B(x: A) }\ndata Nest[A] { Flat(x: A), Deep(n: Nest[Box[A]]) }\ndef depth(t: Nest[i64]): i64 { t.case[i64] { Flat(x) => x, Deep(n) => 1 } }\ndef main(n: i64): i64 { depth(Flat(n)) }\n"),
+        ("nonregular_pair", "data Pair[A, B] { Tup(a: A, b: B) }\ndata Grow[A] { Stop(x: A), More(n: Grow[Pair[A, A]]) }\ndef peek(t: Grow[i64]): i64 { t.case[i64] { Stop(x) => x, More(n) => 2 } }\ndef main(n: i64): i64 { peek(Stop(n)) }\n"),
+        ("mutual_types", "data Even { Z, SE(o: Odd) }\ndata Odd { SO(e: Even) }\ndef half(e: Even): i64 { e.case { Z => 0, SE(o) => o.case { SO(e2) => 1 + half(e2) } } }\ndef main(n: i64): i64 { half(SE(SO(SE(SO(Z))))) }\n"),
+        ("empty_types", "data Void { }\ncodata Top { }\ndef absurd(v: Void): i64 { v.case { } }\ndef main(n: i64): i64 { let t: Top = new { }; n }\n"),
+        ("only_exit", "def main(): i64 { exit 3 }\n"),
+        ("unused_defs", "data List[A] { Nil, Cons(x: A, xs: List[A]) }\ncodata Stream[A] { hd: A, tl: Stream[A] }\ndef never(l: List[List[i64]], s: Stream[Stream[i64]]): List[List[i64]] { l }\ndef main(n: i64): i64 { n }\n"),
+        ("nested_new", "codata Outer { inner: Inner }\ncodata Inner { val: i64 }\ndef main(n: i64): i64 { (new { inner => new { val => n } }).inner.val }\n"),
+        ("deep_parens", "def main(n: i64): i64 { ((((((((((((((((((((((((((((((((n)))))))))))))))))))))))))))))))) }\n"),
+        ("poly_mutual", "data Rose[A] { Node(x: A, kids: Forest[A]) }\ndata Forest[A] { Leafs, Trees(t: Rose[A], r: Forest[A]) }\ndef size(r: Rose[i64]): i64 { r.case[i64] { Node(x, kids) => 1 + fsize(kids) } }\ndef fsize(f: Forest[i64]): i64 { f.case[i64] { Leafs => 0, Trees(t, r) => size(t) + fsize(r) } }\ndef main(n: i64): i64 { size(Node(n, Trees(Node(1, Leafs), Leafs))) }\n"),
+    ]
+}
+
+/// Runs every corpus entry unmodified through the real binary in a resource-limited subprocess; an
+/// abort there (stack overflow, allocation failure, panic, no termination within a minute) is the
+/// only way such a failure can be attributed to its input. Returns the names that crashed.
+fn prescreen(corpus: &[(String, String)], report: bool, rep: &mut Report) -> std::collections::HashSet<String> {
+    let mut crashed = std::collections::HashSet::new();
+    let scc = std::path::PathBuf::from("/verif/engine/target/scc/release/scc");
+    if !scc.exists() {
+        return crashed;
+    }
+    let dir = scratch_dir().join(format!("c18-pre-{}", std::process::id()));
+    let _ = std::fs::create_dir_all(&dir);
+    for (name, src) in corpus {
+        let file = dir.join("p.sc");
+        if std::fs::write(&file, src).is_err() {
+            continue;
+        }
+        for sub in ["check", "linearize"] {
+            let cmdline = format!("ulimit -v 1500000; exec timeout 60 {} {sub} {}", scc.display(), file.display());
+            let out = std::process::Command::new("sh").current_dir(&dir).arg("-c").arg(&cmdline).output();
+            let Ok(o) = out else { continue };
+            use std::os::unix::process::ExitStatusExt;
+            let err = String::from_utf8_lossy(&o.stderr).to_string();
+            let bad = o.status.code() == Some(101) || o.status.code() == Some(124) || o.status.code() == Some(134) || o.status.code() == Some(139) || err.contains("panicked at") || err.contains("has overflowed its stack") || err.contains("memory allocation") || o.status.signal().is_some();
+            if report {
+                rep.count("cases", 1);
+                rep.count("evaluations", 1);
+                rep.count("binary_runs", 1);
+                rep.distinct.push(hash64(&(sub, "corpus", name)));
+            }
+            if bad {
+                crashed.insert(name.clone());
+                if report {
+                    rep.violation(
+                        format!("binary/{sub}/corpus"),
+                        format!("`scc {sub}` on the corpus program {name}: exit {:?} signal {:?}, stderr {:?}", o.status.code(), o.status.signal(), err.chars().take(200).collect::<String>()),
+                        json!({"kind": "bytes", "name": name, "bytes": src.as_bytes(), "subcommand": sub}),
+                    );
+                }
+                break;
+            } else if report {
+                rep.count("binary_runs_without_crash", 1);
+            }
+        }
+    }
+    let _ = std::fs::remove_dir_all(&dir);
+    crashed
 }
 
 pub fn worker(ctx: &WorkerCtx) -> Report {
@@ -245,7 +311,13 @@ pub fn worker(ctx: &WorkerCtx) -> Report {
     }
     // (ii) every single-token replacement, insertion and deletion at every position of the corpus
     let alphabet: Vec<&str> = TOKENS.iter().copied().filter(|t| !t.trim().is_empty() || *t == "\n").collect();
-    for (name, src) in corpus() {
+    let the_corpus = corpus();
+    let crashed = prescreen(&the_corpus, ctx.shard == 0, &mut rep);
+    for (name, src) in the_corpus {
+        if crashed.contains(&name) {
+            // reported by the pre-screen; mutating it in-process would only take the worker down
+            continue;
+        }
         let toks = tokenize(&src);
         let significant: Vec<usize> = (0..toks.len()).filter(|i| !toks[*i].trim().is_empty()).collect();
         for &pos in &significant {
